@@ -2,6 +2,11 @@
 import gen
 
 PROPS = {
+    "C06": dict(
+        files=[("op", "c06_op.rs")],
+        bounds="every scalar payload; strings <= 2 symbolic chars; containers [], [0], [[]], {}, {a:false}; users with literal operands",
+        out="truthiness of values reached through var or produced by operators (interpreter); strings longer than 2",
+    ),
     "C08": dict(
         files=[("op", "c08_op.rs")],
         bounds="primitive pairs fully symbolic (all number representations, strings <= 2 symbolic chars); containers [] [7] {} {a:null}",
